@@ -21,10 +21,27 @@ def main(tier, only=None):
             e1.H("h_error_at_location", "diag/error_at-line-exists", unwind=9, timeout=600,
                  desc="error_at/verror_at for every NUL-terminated buffer <= 6 bytes and every location in it"),
         ])
+    if want("tok"):
+        import os
+        n = 4 if tier == "quick" else 6
+        uni = [os.path.join(vf.REPO, f) for f in ("unicode.c", "type.c", "hashmap.c", "strings.c")]
+        hs = []
+        for L in range(0, n + 1):
+            hs.append(e1.H("h_tok_step", "tok/step-in-bounds-and-progress/len%d" % L, unwind=L + 4, unwindset=("in_range.0:140", "read_punct.0:24"), timeout=1500,
+                           defines=("__NO_CTYPE", "TOKBYTES=%d" % L), native=False,
+                           replace_calls=("error_at:stub_error_at", "convert_pp_tokens:stub_convert_pp_tokens", "add_line_numbers:stub_add_line_numbers"),
+                           instrument=("--unwindset", "tokenize.2:1", "--partial-loops"),
+                           desc="one iteration of tokenize()'s main loop from every offset of every NUL-terminated buffer of exactly %d bytes" % L))
+        e1.run_set(chk, "c13/tok.c", hs, extra_src=uni)
+        chk.bounds += ["tokenizer: inductive step - ONE iteration of tokenize()'s main loop (goto-instrument --unwindset tokenize.2:1 --partial-loops) from every start offset of every "
+                       "NUL-terminated buffer of <= %d arbitrary bytes in an exactly sized object: all accesses in bounds, inner loops terminate (unwinding assertions), scan pointer strictly "
+                       "advances and stays <= the NUL, or a diagnostic is issued" % n]
+        chk.assumptions += ["tok/step: the main loop's only state is the scan pointer and the at_bol/has_space flags (read off tokenize.c: locals p, cur; statics at_bol, has_space), so one iteration "
+                            "from an arbitrary offset covers every iteration; strstr is a specification-level model (cbmc has none); error_at ends the path"]
     chk.bounds += ["#include operand: 6 operand-line shapes x 6 shapes of what macro expansion returns, over {identifier, string, <, >, number} (the code only distinguishes these token classes); termination claim = 'an operand is macro-expanded at most once' (assertion) + unwinding assertions",
                    "diagnostic location: every buffer of <= 6 bytes (all byte values) x every location"]
     chk.outside += ["whole-parser robustness on arbitrary token streams and 'every conforming program is accepted' (not decidable by bounded symbolic execution); "
-                    "the real tokenize() main loop (cbmc 6.11 does not get through its pointer merges, see DESIGN.md C19); "
+                    "the real tokenize() main loop unrolled as a whole (cbmc 6.11 does not get through its pointer merges, see DESIGN.md C19): decided as an inductive step instead (tok/*); "
                     "the other kernels that were crash sites are decided where they belong: constant division by zero (C07 divzero/*), member lookup with unnamed members (C08 layout-e2, C05 init/bf), "
                     "assembler acceptance of every probe program (all E2 checks), driver status propagation incl. signals (C14)"]
     chk.assumptions += ["preprocess.c environment of harness/pp_env*.h: hashmap replaced by its specification (sound given C17), error*/warn stubs that end the path"]
